@@ -54,7 +54,13 @@ var DefaultInterpPkgs = []string{
 	"errors", "internal/errors", "io", "bytes", "strings", "strconv", "sort", "slices", "math", "math/bits", "unicode/utf8",
 	"encoding/hex", "encoding/binary", "container/list", "container/ring", "internal/bytealg", "internal/itoa",
 	"sync", "sync/atomic", "cmp", "internal/stringslite", "iter", "maps", "unique", "internal/race", "internal/byteorder",
-	"bufio",
+	"bufio", "time", "context", "io/ioutil",
+	"golang.org/x/sync/errgroup", "github.com/hashicorp/golang-lru", "github.com/hashicorp/golang-lru/simplelru", "go.uber.org/atomic",
+	"github.com/linxGnu/grocksdb", "github.com/tinylib/msgp/msgp",
+	"github.com/0chain/common/core/common", "github.com/0chain/common/core/encryption", "github.com/0chain/common/core/logging",
+	"github.com/0chain/common/core/statecache", "github.com/0chain/common/core/util", "github.com/0chain/common/core/currency",
+	"github.com/0chain/common/core/util/wmpt", "github.com/0chain/common/core/util/storage",
+	"verifharness/vp", "verifharness/mptlib",
 }
 
 type Program struct {
@@ -139,6 +145,7 @@ func (p *Program) RunPath(req *Request, proc *smt.Proc) (res *PathResult) {
 	S = newScheduler()
 	raceReset()
 	syncReset()
+	envReset()
 	unwinding = false
 	lastDecimal = nil
 	g0 := smt.GStats
@@ -185,7 +192,8 @@ func (p *Program) RunPath(req *Request, proc *smt.Proc) (res *PathResult) {
 
 // WorkerMain serves requests on stdin/stdout until EOF.
 func WorkerMain(cfg LoadConfig, in io.Reader, out io.Writer) error {
-	debug.SetGCPercent(200)
+	debug.SetGCPercent(-1)
+	debug.SetMemoryLimit(int64(envMB("SYMGO_MEM_MB", 1500)) << 20)
 	p, err := Load(cfg)
 	if err != nil {
 		return err
@@ -216,9 +224,7 @@ func WorkerMain(cfg LoadConfig, in io.Reader, out io.Writer) error {
 			w.WriteByte('\n')
 			w.Flush()
 			n++
-			if n%200 == 0 {
-				runtime.GC()
-			}
+			_ = runtime.NumCPU
 		}
 		if err != nil {
 			if err == io.EOF {
@@ -237,4 +243,14 @@ func SortedFuncs(m map[string]int64) []string {
 	}
 	sort.Strings(ks)
 	return ks
+}
+
+func envMB(name string, def int) int {
+	if v := os.Getenv(name); v != "" {
+		var n int
+		if _, err := fmt.Sscan(v, &n); err == nil && n > 0 {
+			return n
+		}
+	}
+	return def
 }
